@@ -179,6 +179,23 @@ def step(w, op, prop, strict_others=False):
                 t._data[col] = as_faulty(t._data[col])
         _after_mutation(w, prop, tid, where)
         return "setcol_index" if col == m.index else ("setcol" if existing else "newcol")
+    if kind == "labelcol":
+        # the table's own row labels stored as a column: t[col] = t.cols.get_index_unique() (the array the API handed out)
+        _, tid, col = op
+        t, m = w.real[tid], w.model[tid]
+        if col in m.cols or col in m.scalars or m.n() == 0:
+            return "skipped"
+        where = "table #%d t[%r] = t.cols.get_index_unique()" % (tid, col)
+        val, exc = call(lambda: t.__setitem__(col, t.cols.get_index_unique()))
+        if exc is not None:
+            raise TViolation(prop + ".setcol_raises", "%s raised %s: %s" % (where, type(exc).__name__, exc))
+        m.cols.append(col)
+        m.data[col] = list(m.unique_labels())
+        w.kinds[tid][col] = "s"
+        if isinstance(t._data[m.index], FaultyArray):
+            t._data[col] = as_faulty(t._data[col])
+        _after_mutation(w, prop, tid, where)
+        return "labelcol"
     if kind == "setslice":
         # several cells of one column at once: t[col, slice] = values, t[col, [positions]] = values, t[col, 'a':'b'] = values
         _, tid, col, sel, values = op
